@@ -217,6 +217,11 @@ def run_shard(spec, rec):
         rng = rng_for(spec["seed"], "C07", i, 0)
         cfg = filtgen.bank_cfg(rng, gammatone_scope_c07=True)
         run_case({"idx": i, "seed": spec["seed"], "cfg": cfg, "threshold": [None, None, None, 5e-5, 2e-3][i % 5]}, rec, mon)
+        if i % 10 == 2:
+            # the same layout again in this process, as new bank objects under other thresholds (lower, then higher)
+            for thr in (5e-5, 2e-3):
+                run_case({"idx": i, "seed": spec["seed"], "cfg": cfg, "threshold": thr}, rec, mon)
+            rec.count("layouts_rebuilt_under_other_thresholds")
     rec.extra["worst_ratio_to_bound"] = {"%s %s" % k: round(v, 4) for k, v in sorted(mon.worst.items())}
     monitor.report(rec)
     monitor.detach_all()
